@@ -82,6 +82,14 @@ CHECKS["C12"] = {
     "design_ref": "DESIGN.md 2.3, 3 (C12)",
 }
 
+CHECKS["C04"] = {
+    "engine": "W",
+    "technique": "deterministic simulation of the two-party world (stub ranks with an adversarial domain decomposition write, real loader reads), seeded fault-free search over worlds x selections; differential (selective vs full load) + ground-truth filter",
+    "text": "Exploration, fault-free world search: worlds with 3-D Hilbert (frozen, validated curve; up to 16 ranks; random, tiny and clustered key ranges), 1-D Hilbert or non-Hilbert decompositions are loaded fully and with 1-3 selections each (interval predicates on axis subsets incl. compact boxes from a fraction of the finest cell upward, boxes centred on coarse leaves, boxes touching the domain edges; value predicates; explicit cpu_list). The selective load must equal the model's filter of the leaf set and, exactly and in every variable, the corresponding rows of the unselected load. Files opened are recorded (probe: pre-selection excluded a rank). No schedule or fault is involved; sampling, not proof.",
+    "note": "Trusted: as C01, plus the oct-ownership rule (owner = rank of the father cell's centre key) and the frozen Hilbert state diagram (validated: bijective, unit steps, prefix property). 2-D Hilbert worlds are not generated.",
+    "design_ref": "DESIGN.md 2.3, 3 (C04)",
+}
+
 PENDING_REASON = "check not built yet in this snapshot of /verif (planned and applicable, see DESIGN.md section 3); not claimed until its check exists"
 ALL = ["C%02d" % i for i in range(1, 21)]
 
